@@ -13,6 +13,10 @@ MCDeltas == {<<-1, 0, 0, 0>>, <<24, 0, 0, 0>>}
 MCCalShifts == {[y |-> 0, mo |-> 0, w |-> 0, d |-> 1, h |-> 0, mi |-> 0, s |-> 0, us |-> 0],
                 [y |-> 0, mo |-> -1, w |-> 0, d |-> 0, h |-> 0, mi |-> 0, s |-> 0, us |-> 0]}
 MCWeekStarts == {0, 6}
+\* set(hour=2, minute=30): into GapOverlap's gap / overlap on the right days; set(day=14): onto MidnightGap's skipped midnight
+MCOverrides == {<<-1, -1, -1, 2, 30, -1, -1>>, <<-1, 10, 14, 0, 0, 0, 0>>}
+MCWeekdays == {0, 6}
+SimWeekdays == 0..6
 SimWeekStarts == 0..6
 MCModUnits == {"hour", "day", "week"}
 Depth == TLCGet("level") <= atoi(IOEnv.PV_DEPTH)
